@@ -271,7 +271,7 @@ Theorem C20_props_locked_safe : forall wild name sh0 schedule,
   (forall t lo, g_th c t = GIn lo -> g_lock c = Some t /\ PJ wild name sh0 c20_props_code t (g_sh c) lo).
 Proof. intros wild name sh0 schedule Hn. exact (props_locked_safe wild name Hn sh0 c20_props_code props_code_is_ok schedule). Qed.
 Print Assumptions C20_props_locked_safe.
-(* FINDING F-C20-1 (repaired on branch fix-C20x): ConcatenatedSensorCache.get ran this code on its merged map with no lock *)
+(* FINDING C20-F1 (repaired on branch fix-C20x): ConcatenatedSensorCache.get ran this code on its merged map with no lock *)
 Theorem C20_props_unlocked_refuted :
   exists schedule, g_th (uexec _ _ pline (pstart c20_props_code (fun t => 5 + t)) [9] schedule) 0 = GFail.
 Proof. exact props_unlocked_refuted. Qed.
